@@ -77,6 +77,45 @@ impl FileWatch {
         self.pinned.clear();
     }
 
+    /// The state of the watch for a store directory as found on disk (a crash image about to be
+    /// reopened): what the current manifest lists, and the bytes of every log in the root.
+    pub fn from_disk(root: &std::path::Path) -> Self {
+        let mut w = FileWatch::default();
+        let mut fragments: Vec<std::path::PathBuf> = std::fs::read_dir(root.join("mani"))
+            .map(|d| d.filter_map(|e| e.ok().map(|e| e.path())).collect())
+            .unwrap_or_default();
+        fragments.retain(|p| p.file_name().map(|n| n.to_string_lossy().starts_with("MANIFEST") && !n.to_string_lossy().ends_with(".tmp")).unwrap_or(false));
+        // every fragment starts with the complete state at its creation: the newest one suffices
+        // for `listed`; removals and logs recorded are collected over all of them
+        fragments.sort_by_key(|p| mani::extract_backup(p).unwrap_or(u64::MAX));
+        for (i, f) in fragments.iter().enumerate() {
+            if let Ok(text) = std::fs::read(f) {
+                if i + 1 == fragments.len() {
+                    w.listed.clear();
+                }
+                for line in String::from_utf8_lossy(&text).lines() {
+                    w.manifest_line("store", line);
+                }
+            }
+        }
+        if let Ok(text) = std::fs::read(root.join("verify").join("MANIFEST")) {
+            for line in String::from_utf8_lossy(&text).lines() {
+                w.manifest_line("verify", line);
+            }
+        }
+        if let Ok(d) = std::fs::read_dir(root) {
+            for e in d.flatten() {
+                let name = e.file_name().to_string_lossy().to_string();
+                if name.starts_with("log.") {
+                    if let Ok(bytes) = std::fs::read(e.path()) {
+                        w.log_bytes.insert(name, bytes);
+                    }
+                }
+            }
+        }
+        w
+    }
+
     fn manifest_line(&mut self, which: &str, line: &str) {
         // lines are "<8 hex crc><action><payload>" or the separator
         if line.len() <= 8 || line == "--------" {
@@ -290,6 +329,12 @@ pub fn check_presence(ex: &mut Exec) {
         }
         ex.probes.add("c08_listed_files_present", state.len() as u64);
     }
+}
+
+/// The discipline rules over whatever has been recorded since the last call (used for the
+/// recovery of a crash image, whose trace starts at the reopen).
+pub fn check_recorded(ex: &mut Exec) -> Option<(String, String)> {
+    scan_trace(ex)
 }
 
 pub fn check_verifier_unlinks(ex: &mut Exec, _trace_from: usize) {
